@@ -157,7 +157,10 @@ func c13Workloads(tier string) []c13Workload {
 		{Name: "analytic", Sites: "Analyze (partition keys, partitions), OrderBy inside windows",
 			Queries: []string{q("SELECT id, ROW_NUMBER() OVER (PARTITION BY k ORDER BY v, id) AS rn, SUM(v) OVER (PARTITION BY k) AS sv, RANK() OVER (ORDER BY v) AS r FROM BIG"),
 				q("SELECT id, LAG(v) OVER (PARTITION BY s ORDER BY id) AS l, AVG(v) OVER (PARTITION BY k ORDER BY id ROWS BETWEEN 3 PRECEDING AND CURRENT ROW) AS a FROM BIG"),
-				q("SELECT id, FIRST_VALUE(id) OVER (PARTITION BY v ORDER BY id) AS f, NTILE(7) OVER (ORDER BY id) AS n FROM BIG")}},
+				q("SELECT id, FIRST_VALUE(id) OVER (PARTITION BY v ORDER BY id) AS f, NTILE(7) OVER (ORDER BY id) AS n FROM BIG"),
+				// a user-defined aggregate as analytic function: its cursor and its extra arguments are evaluated per partition worker
+				q("DECLARE uagg13 AGGREGATE (list, @w) AS BEGIN VAR @s := 0; VAR @x; WHILE @x IN list DO @s := @s + @x; END WHILE; RETURN @s + @w; END; SELECT id, uagg13(v, id) OVER (PARTITION BY id % 400) AS u, uagg13(v, k) OVER (PARTITION BY k ORDER BY id ROWS BETWEEN 2 PRECEDING AND CURRENT ROW) AS w FROM BIG"),
+				q("SELECT id, LAG(v, 1, k) OVER (PARTITION BY id % 300 ORDER BY id) AS l, LISTAGG(s, '') OVER (PARTITION BY k ORDER BY id) AS g FROM BIG")}},
 		{Name: "analytic-error", Sites: "Analyze with an error raised inside a window aggregate",
 			Queries: []string{q("SELECT id, SUM(10 / (v - 50)) OVER (PARTITION BY k) AS x FROM BIG")}},
 		{Name: "dml", Sites: "GetWithInternalId, update, delete, insert..select, replace (three phases), AddColumns, DropColumns (Fix)",
